@@ -448,7 +448,13 @@ class Interp:
                 self.res[s[3]] = cm
                 async with cm:
                     self.emit(label, 'benter', list(s[2]))
-                    await self.block(label, s[4:])
+                    try:
+                        await self.block(label, s[4:])
+                    except BaseException:
+                        self.emit(label, 'bbody', [1])
+                        raise
+                    else:
+                        self.emit(label, 'bbody', [0])
             except BaseException:
                 self.emit(label, 'bexit', [s[1], 1])
                 raise
@@ -459,6 +465,7 @@ class Interp:
             if r is None:
                 self.emit(label, 'unbound')
                 return
+            self.emit(label, 'reschange', [s[1], s[2]] + list(s[3]))
             if s[2] == 0:
                 await r.increase(**self.amounts(s[3]))
             elif s[2] == 1:
